@@ -25,7 +25,24 @@ def sx(v):
         return "(el %s (%s))" % (hx(v[1]), " ".join(sx(c) for c in v[2]))
     if v[0] == "sus":
         return "(sus ((text %s)) (%s))" % (hx("F%d" % v[1]), " ".join(sx(c) for c in v[2]))
+    if v[0] == "dyn":
+        return "(dyn (%s))" % " ".join(sx(c) for c in v[1])
     return "(async %d (%s))" % (v[1], " ".join(sx(c) for c in v[2]))
+
+
+def splice(vs):
+    """dynamic blocks are transparent for the abstract model (they only add marker comments and an effect scope)"""
+    out = []
+    for v in vs:
+        if v[0] == "dyn":
+            out += splice(v[1])
+        elif v[0] == "text":
+            out.append(v)
+        elif v[0] == "el":
+            out.append(("el", v[1], splice(v[2])))
+        else:
+            out.append((v[0], v[1], splice(v[2])))
+    return out
 
 
 def cq(v):
@@ -41,6 +58,8 @@ def cq(v):
 def gates(v):
     if v[0] == "text":
         return []
+    if v[0] == "dyn":
+        return [g for c in v[1] for g in gates(c)]
     if v[0] == "async":
         return [v[1]] + [g for c in v[2] for g in gates(c)]
     return [g for c in v[2] for g in gates(c)]
@@ -49,6 +68,8 @@ def gates(v):
 def boundary_ids(v):
     if v[0] == "text":
         return []
+    if v[0] == "dyn":
+        return [b for c in v[1] for b in boundary_ids(c)]
     return ([v[1]] if v[0] == "sus" else []) + [b for c in v[2] for b in boundary_ids(c)]
 
 
@@ -57,6 +78,8 @@ def full(v):
     """everything resolved, no fallback"""
     if v[0] == "text":
         return v[1]
+    if v[0] == "dyn":
+        return "".join(full(c) for c in v[1])
     if v[0] == "el":
         return "<%s>%s</%s>" % (v[1], "".join(full(c) for c in v[2]), v[1])
     return "".join(full(c) for c in v[2])
@@ -66,6 +89,8 @@ def shell(v):
     """nothing resolved: boundaries show their fallback"""
     if v[0] == "text":
         return v[1]
+    if v[0] == "dyn":
+        return "".join(shell(c) for c in v[1])
     if v[0] == "el":
         return "<%s>%s</%s>" % (v[1], "".join(shell(c) for c in v[2]), v[1])
     if v[0] == "sus":
@@ -80,6 +105,7 @@ def shapes():
     E = lambda t, *c: ("el", t, list(c))
     S = lambda i, *c: ("sus", i, list(c))
     A = lambda g, *c: ("async", g, list(c))
+    D = lambda *c: ("dyn", list(c))
     return [
         [S(1, A(1, T("a")))],
         [E("div", S(1, A(1, E("p", T("a"))), T("s")), T("z"))],
@@ -106,6 +132,11 @@ def shapes():
         [E("div", S(1, A(1, T("a")))), E("p", S(2, A(2, T("b")))), S(3, A(3, T("c")))],
         [S(1, A(1, S(2, A(2, S(3, A(3, T("c")))))))],
         [S(1, A(1, T("a")), S(2, A(2, T("b")), S(3, A(3, T("c")), A(4, T("d")))))],
+        # boundaries created inside dynamic blocks (effect scopes), side by side and mixed with top-level ones
+        [E("section", D(S(1, A(1, T("a"))))), E("section", D(S(2, A(2, T("b")))))],
+        [D(S(1, A(1, T("a")))), S(2, A(2, T("b")))],
+        [S(1, A(1, T("a"))), D(S(2, A(2, T("b"))), S(3, A(3, T("c"))))],
+        [D(D(S(1, A(1, T("a")))), E("p", D(S(2, A(2, D(S(3, A(3, T("c")))))))))],
     ]
 
 
@@ -130,7 +161,7 @@ def cases(tier, rng):
 def run_impl(binp, cs):
     lines = []
     for vs, sched in cs:
-        v = vs[0] if len(vs) == 1 else ("el", "main", vs)
+        v = real_view(vs)
         for mode in ("sync", "blocking", "streaming"):
             lines.append("(suspense %s %s (%s))" % (mode, sx(v), " ".join(str(g) for g in sched)))
     rc, so, se = vlib.run_driver(binp, "\n".join(lines) + "\n", timeout=3000)
@@ -140,8 +171,13 @@ def run_impl(binp, cs):
     return [tuple(blocks[3 * i + k].split("\n") for k in range(3)) for i in range(len(cs))]
 
 
+def real_view(vs):
+    return vs[0] if len(vs) == 1 and len(splice(vs)) == 1 else ("el", "main", vs)
+
+
 def model_view(vs):
-    return [vs[0]] if len(vs) == 1 else [("el", "main", vs)]
+    sp = splice(vs)
+    return [sp[0]] if len(vs) == 1 and len(sp) == 1 else [("el", "main", sp)]
 
 
 def run_model(pid, cs, chunk=30):
